@@ -763,6 +763,18 @@ class TotalWorld(OracleWorld):
         st.facts[("last-char-len", tag)] = n
         return ip.boolean(True)
 
+    def str_strip_suffix(self, m, st, s, pat):
+        """s.strip_suffix(c): None, or the part of s before its last character — a prefix of s that ends on a
+        char boundary, so its length is a byte offset of s."""
+        if not isinstance(s, Str) or not (isinstance(pat, (I, Sym)) and pat.ty == "char"):
+            return None
+        if not self.decide(st, "strip_suffix", [True, False]):
+            return ip.none()
+        tag = s.tag
+        k = Sym(("byteoff", tag, ("before-last", self.n(st))), "usize")
+        st.facts[("le", k.name, ("len", tag))] = True
+        return ip.some(Ref(("val", Str(("slice", tag, ("int", 0), ("val", k))))))
+
     def bound_ok(self, st, b, tag):
         if isinstance(b, Sym):
             bs, k = lin_parts(b)
